@@ -80,6 +80,10 @@ func (d *Provider) Block() {
 		return
 	}
 	for key, defaultVal := range d.defaultInstances {
+		if _, ok := d.factories[key]; ok {
+			// an explicit factory wins over a default instance
+			continue
+		}
 		if _, ok := d.instances[key]; !ok {
 			if d.autoclean {
 				delete(d.defaultFactories, key)
@@ -104,13 +108,15 @@ func (d *Provider) Get(name string) (interface{}, error) {
 	if factory, exist := d.factories[name]; exist {
 		d.callstack = append(d.callstack, name)
 		instance, err := factory(d)
+		// pop on every exit: a failed resolution must not look like a cycle to later requests
+		callstack := d.callstack
+		d.callstack = d.callstack[:len(d.callstack)-1]
 		if err != nil {
-			return nil, goaterr.Errorf("%v (dependency callstack: %v)", err, d.callstack)
+			return nil, goaterr.Errorf("%v (dependency callstack: %v)", err, callstack)
 		}
 		if instance == nil {
 			return nil, goaterr.Errorf("factory for %s return nil as instance", name)
 		}
-		d.callstack = d.callstack[:len(d.callstack)-1]
 		d.clean(name)
 		d.instances[name] = instance
 		return instance, nil
@@ -118,13 +124,15 @@ func (d *Provider) Get(name string) (interface{}, error) {
 	if factory, exist := d.defaultFactories[name]; exist {
 		d.callstack = append(d.callstack, name)
 		instance, err := factory(d)
+		// pop on every exit: a failed resolution must not look like a cycle to later requests
+		callstack := d.callstack
+		d.callstack = d.callstack[:len(d.callstack)-1]
 		if err != nil {
-			return nil, goaterr.Errorf("%v (dependency callstack: %v)", err, d.callstack)
+			return nil, goaterr.Errorf("%v (dependency callstack: %v)", err, callstack)
 		}
 		if instance == nil {
 			return nil, goaterr.Errorf("default factory for %s return nil as instance", name)
 		}
-		d.callstack = d.callstack[:len(d.callstack)-1]
 		if d.autoclean {
 			delete(d.defaultFactories, name)
 		}
